@@ -26,7 +26,9 @@ CONSTANTS MaxPush,   \* bound on ciphertexts produced
           Bases,     \* counter classes the streams start from
           Tags,      \* tag bytes pushed
           Ads,       \* associated-data identities
-          Muts       \* ways of presenting a ciphertext that is not authentic
+          Muts       \* ways of presenting a ciphertext that is not authentic: "ad" (other associated data), "flip" (a bit changed),
+                     \* "foreign" (another key or header), "shortbuf" (the genuine ciphertext, but the receiver's message buffer is
+                     \* shorter than the message: the classic pull must refuse it and leave tag, buffer and state as they were)
 
 VARIABLES push, pull,   \* [root, hist, base, off]
           wire,         \* ciphertexts produced, in order
